@@ -54,7 +54,12 @@ def check_split(case, out):
         out.cls("float-twin-first")
         try:
             tw = lib.build_curve(dict(c, num="float"))
-            tw.split() if case["mode"] == "none" else tw.split([float(z) for z in case["nodes"]])
+            if case["mode"] == "none":
+                tw.split()
+            elif len(case["nodes"]) % 2:
+                tw.split([F(z) for z in case["nodes"]])  # the very nodes of the exact request on the float twin
+            else:
+                tw.split([float(z) for z in case["nodes"]])
         except Exception as exc0:
             if not lib.from_library(exc0):
                 raise
